@@ -16,6 +16,8 @@ C08 applyadj [J…] [pr,pi,qr,qi]                   -> ok [4 numbers]           
 C08 adj     [J…]                                  -> ok [8 numbers]                 Jᴴ
 C08 retarder c s pc ps xc xs                      -> ok [8 numbers]  PhaseRetarder Jones matrix
 C08 polarizer c s                                 -> ok [8 numbers]
+C08 hwp c s | qwp c s h                           -> ok [8 numbers]  HalfWavePlate / QuarterWavePlate (h = √½) Jones matrix
+C08 elmueller retarder c s pc ps xc xs | polarizer c s -> ok [16 numbers]  Mueller matrix (`muellerDef`) of the executed element matrix
 C08 ports tensor c s cq sq pc ps xc xs [E…] [a,b,c,d] -> ok [I1,Q1,U1,V1,I2,Q2,U2,V2,I,Q,U,V]  Stokes vectors of the two ports
                                                      P(θ)·R·E, P(θ+π/2)·R·E (R = retarder cq sq p x) and of the input
 C08 ports vector c s cq sq pc ps xc xs [E…]           -> ok [12 numbers]
@@ -118,6 +120,23 @@ def step (st : St) : List String → St × String
     | some c, some s, some pc, some ps, some xc, some xs =>
       (st, "ok " ++ showJ2 (retarder c s ⟨pc, ps⟩ ⟨xc, xs⟩))
     | _, _, _, _, _, _ => (st, "bad-op")
+  | ["elmueller", "retarder", c, s, pc, ps, xc, xs] =>
+    match parseRat? c, parseRat? s, parseRat? pc, parseRat? ps, parseRat? xc, parseRat? xs with
+    | some c, some s, some pc, some ps, some xc, some xs =>
+      (st, "ok " ++ showRatList ((List.range 16).map fun n => muellerDef (retarder c s ⟨pc, ps⟩ ⟨xc, xs⟩) (n / 4) (n % 4)))
+    | _, _, _, _, _, _ => (st, "bad-op")
+  | ["elmueller", "polarizer", c, s] =>
+    match parseRat? c, parseRat? s with
+    | some c, some s => (st, "ok " ++ showRatList ((List.range 16).map fun n => muellerDef (polarizer c s) (n / 4) (n % 4)))
+    | _, _ => (st, "bad-op")
+  | ["hwp", c, s] =>
+    match parseRat? c, parseRat? s with
+    | some c, some s => (st, "ok " ++ showJ2 (halfWavePlate c s))
+    | _, _ => (st, "bad-op")
+  | ["qwp", c, s, h] =>
+    match parseRat? c, parseRat? s, parseRat? h with
+    | some c, some s, some h => (st, "ok " ++ showJ2 (quarterWavePlate c s h))
+    | _, _, _ => (st, "bad-op")
   | ["polarizer", c, s] =>
     match parseRat? c, parseRat? s with
     | some c, some s => (st, "ok " ++ showJ2 (polarizer c s))
